@@ -175,6 +175,15 @@ def run_case(case, res):
             std = QBitsTensor(qint4, 0, 128, size, stride, data, scale, zp)
             awq = Q.AWQBitsTensor(qint4, 0, 128, size, stride, data, scale, zp)
             A, B = m.read(awq.dequantize()), m.read(std.dequantize())
+            # flatten / unflatten (what torch.compile and subclass tracing do): same class, same denotation
+            flat_err, RT, rt_type = None, None, None
+            try:
+                inner, meta = awq.__tensor_flatten__()
+                rt = type(awq).__tensor_unflatten__({n_: getattr(awq, n_) for n_ in inner}, meta, None, None)
+                rt_type = type(rt).__name__
+                RT = m.read(rt.dequantize())
+            except Exception as e:  # noqa
+                flat_err = f"{type(e).__name__}: {e}"
             back_err = None
             try:
                 back = awq.qbits_tensor()
@@ -184,6 +193,10 @@ def run_case(case, res):
                 back_err = f"{type(e).__name__}: {e}"
         ctx = m.ctx
         res.side_ok("awq-dequantize-shape", A.shape == B.shape == tuple(shape), f"{A.shape} {B.shape}")
+        ok_flat = flat_err is None and rt_type == type(awq).__name__ and RT.shape == A.shape and all(x_ is y_ for x_, y_ in zip(RT.reshape(-1), A.reshape(-1)))
+        res.query("flatten-unflatten-preserves-class-and-denotation", "ALG", "unsat" if ok_flat else "sat", 0.0, sub=f"{shape}: {flat_err or rt_type}", nvars=D.size + S.size + Z.size)
+        if not ok_flat:
+            res.candidate("flatten", "ALG", dict(kind="flatten", shape=list(shape), c=api.enc_tensor(data), s=api.enc_tensor(scale), z=api.enc_tensor(zp)), exact=True)
         mp = api.unpack_lemma(ctx, list(B.reshape(-1)) + list(A.reshape(-1)), 4, None) or {}
         A2, B2 = api.subst(ctx, list(A.reshape(-1)), mp), api.subst(ctx, list(B.reshape(-1)), mp)
         # representation equivalence: s*q + (-(z*s)) vs s*(q - z), per element, within one float16 rounding; the operands of each
@@ -294,6 +307,16 @@ def replay(rec):
     size, stride = torch.Size(shape), (shape[1], 1)
     std = QBitsTensor(qint4, 0, 128, size, stride, data, scale, zp)
     awq = Q.AWQBitsTensor(qint4, 0, 128, size, stride, data, scale, zp)
+    if inp["kind"] == "flatten":
+        try:
+            inner, meta = awq.__tensor_flatten__()
+            rt = type(awq).__tensor_unflatten__({n_: getattr(awq, n_) for n_ in inner}, meta, None, None)
+            a, b = rt.dequantize().float(), awq.dequantize().float()
+            bad = type(rt) is not type(awq) or a.shape != b.shape or not torch.equal(torch.nan_to_num(a), torch.nan_to_num(b))
+            n = int((a != b).sum()) if a.shape == b.shape else -1
+            return bad, f"flatten/unflatten of an AWQBitsTensor gives a {type(rt).__name__} whose dequantized values differ in {n} of {b.numel()} elements", None
+        except Exception as e:  # noqa
+            return True, f"flatten/unflatten of an AWQBitsTensor raises {type(e).__name__}: {e}", None
     if inp["kind"] == "repr":
         a, b = awq.dequantize().float(), std.dequantize().float()
         fin = torch.isfinite(a) & torch.isfinite(b)
